@@ -153,6 +153,10 @@ pub struct Eng<'r> {
     /// report every disagreement under the property being checked, with this signature prefix
     /// (used by the crash and concurrency monitors, which re-use the sequential monitors)
     pub attribute_all: Option<String>,
+    /// at this step count the history continues above a large offset (see `jump_map`); None = never
+    pub jump_at: Option<u64>,
+    jumping: bool,
+    pending_jump: Option<u64>,
 }
 
 impl<'r> Eng<'r> {
@@ -192,6 +196,9 @@ impl<'r> Eng<'r> {
             last_map_len: 0,
             sigbits: 0,
             attribute_all: None,
+            jump_at: if index % 8 == 5 { Some(6 + index / 8 % 9) } else { None },
+            jumping: false,
+            pending_jump: None,
         };
         for t in e.tables.clone() {
             let _ = e.model.x.insert(t.to_string(), BTreeMap::new());
@@ -235,6 +242,9 @@ impl<'r> Eng<'r> {
             last_map_len: 0,
             sigbits: 0,
             attribute_all: None,
+            jump_at: None,
+            jumping: false,
+            pending_jump: None,
         };
         for ev in events {
             e.register(ev);
@@ -295,6 +305,11 @@ impl<'r> Eng<'r> {
         let tables = self.tables.clone();
         match catch(|| Store::new(&dir, tables)) {
             Ok(Ok(s)) => self.store = Some(s),
+            Ok(Err(e)) if self.jumping => {
+                // the doctored map was refused: not a state the store produced itself, so no verdict
+                self.rep.count(&format!("large_offset_jump_refused:{}", format!("{:?}", classify_err(&e))));
+                self.abort("jump-refused");
+            }
             Ok(Err(e)) => {
                 self.flag(&["C16", "C13", "C04"], &format!("{what}-failed"), &format!("Store::new failed: {e}"));
                 self.abort("open-failed");
@@ -581,6 +596,42 @@ impl<'r> Eng<'r> {
         self.after_step(OpKind::Vanish);
     }
 
+    /// Continue the history above a large offset: close, make the map file sparse-large with its end marker a few
+    /// bytes below 2^31 / 2^32 / 2^33 (so that the next events straddle and pass that value), reopen. Equivalent to a
+    /// store that already holds that many bytes of (unindexed, e.g. ephemeral or removed) events; every oracle of the
+    /// history keeps running, so an offset narrowed anywhere (an index value, a cast) shows as a wrong read or result.
+    pub fn jump_map(&mut self) {
+        if self.aborted || self.store.is_none() {
+            return;
+        }
+        let base: u64 = [1u64 << 31, 1 << 32, 1 << 32, 1 << 33][(self.index / 8 % 4) as usize];
+        self.pending_jump = Some(base - 24 - self.index / 32 % 8);
+        self.reopen(false);
+        self.pending_jump = None;
+        self.jumping = false;
+    }
+
+    fn doctor_map(&mut self, end: u64) -> bool {
+        use std::os::unix::fs::FileExt;
+        let path = self.dir.join("event.map");
+        let f = match std::fs::OpenOptions::new().read(true).write(true).open(&path) {
+            Ok(f) => f,
+            Err(_) => return false,
+        };
+        let mut hdr = [0u8; 8];
+        if f.read_exact_at(&mut hdr, 0).is_err() || u64::from_le_bytes(hdr) >= end {
+            return false;
+        }
+        let newlen = (end + 24 + 8) / (4 << 20) * (4 << 20) + (4 << 20);
+        if f.set_len(newlen).is_err() {
+            return false;
+        }
+        if f.write_all_at(&end.to_le_bytes(), 0).is_err() || f.sync_all().is_err() {
+            return false;
+        }
+        true
+    }
+
     pub fn reopen(&mut self, more_tables: bool) {
         if self.aborted {
             return;
@@ -588,6 +639,15 @@ impl<'r> Eng<'r> {
         self.steps += 1;
         let before = if self.flags.snapshot_lifecycle { Some(self.snap()) } else { None };
         self.close_store();
+        if let Some(end) = self.pending_jump {
+            if self.doctor_map(end) {
+                self.jumping = true;
+                self.rep.count("histories_continued_above_a_large_offset");
+                self.log.push(format!("map end marker moved to {end} (sparse file)"));
+            } else {
+                self.rep.count("large_offset_jump_not_possible");
+            }
+        }
         if more_tables && self.tables.len() < TABLES.len() {
             let t = TABLES[self.tables.len()];
             self.tables.push(t);
